@@ -45,6 +45,8 @@ type simState struct {
 	cnt  simCounters
 	dev  int
 	hist []simEvent
+
+	skipDC bool // script: leave "peer disconnected" notifications pending
 }
 
 func newSimState(sc *simScenario) (*simState, error) {
@@ -59,7 +61,11 @@ func newSimState(sc *simScenario) (*simState, error) {
 	}
 	w.led.beforeEvent(simEvent{})
 	w.led.afterEvent(simEvent{})
-	if err := s.runScript(sc.Script); err != nil {
+	noRepl := w.opt.NoRepl
+	w.opt.NoRepl = false // the seed script runs with replication; the restriction applies to the exploration
+	err := s.runScript(sc.Script)
+	w.opt.NoRepl = noRepl
+	if err != nil {
 		return s, fmt.Errorf("script: %v", err)
 	}
 	return s, nil
@@ -154,12 +160,14 @@ func (s *simState) runScript(script []string) error {
 		switch parts[0] {
 		case "T":
 			err = s.apply(simEvent{K: "T", N: num(1) - 1, S: "main"}, true)
-		case "run":
+		case "run", "runnodc":
 			limit := 10000
 			if len(parts) > 1 {
 				limit = num(1)
 			}
+			s.skipDC = parts[0] == "runnodc"
 			err = s.runFree(limit, nil)
+			s.skipDC = false
 		case "update":
 			err = s.apply(simEvent{K: "CL", N: num(1) - 1, S: "update"}, true)
 			s.cnt.Updates-- // scripted operations do not consume the menu budget
@@ -227,7 +235,7 @@ func (s *simState) runFree(limit int, stop func() bool) error {
 		ev := s.w.enabled(&free, s.cnt)
 		var pick *simEvent
 		for j := range ev {
-			if ev[j].Dev == 0 && ev[j].K != "RH" && ev[j].K != "S" {
+			if ev[j].Dev == 0 && ev[j].K != "RH" && ev[j].K != "S" && !(s.skipDC && ev[j].K == "DC") {
 				pick = &ev[j]
 				break
 			}
